@@ -35,22 +35,26 @@ Proof.
   split; [apply H1|]. split; assumption.
 Qed.
 
-(* MAIN: every finite history over Draw | Frame | SkipFrame | Clear | Renew, from a fresh renderer
-   on a blank terminal that executes exactly the issued commands: after every Frame the terminal
-   displays show(S) for the surface S drawn for that frame, and no command is a protocol error *)
+(* MAIN: every finite history over Draw | Frame | SkipFrame | Clear | Renew | Resize, from a fresh
+   renderer on a blank terminal that executes exactly the issued commands (a Resize replaces the
+   terminal's cells by an arbitrary screen of the new size): after every Frame the terminal displays
+   show(S) for the surface S drawn for that frame — also when clear() came between the drawing and the
+   frame — and no command is a protocol error.  [good_ops]: every drawn surface is good for the size
+   the terminal has at that moment. *)
 Theorem C01_history : forall o h w ops,
   oracle_ok o -> good_ops o h w ops ->
   spec_run o h w (blank_screen h w) (gmake h w cell_default) ops (rrun o (rnew h w false) ops) = true.
 Proof.
   intros o h w ops Hsp Hgood.
-  exact (history_spec_run o h w ops (rnew h w false) (blank_screen h w) Hsp (hinv_init o h w false Hsp) Hgood).
+  exact (history_spec_run o ops h w (rnew h w false) (blank_screen h w) Hsp (hinv_init o h w false Hsp) Hgood).
 Qed.
 
 (* the same, in the form of the property text: a history that ends in a frame of S *)
 Theorem C01_history_final : forall o h w ops s,
-  oracle_ok o -> good_ops o h w ops -> good_surface o h w s ->
+  oracle_ok o -> good_ops o h w ops ->
+  good_surface o (fst (size_after h w ops)) (snd (size_after h w ops)) s ->
   same_display (snd (run o (rnew h w false) (blank_screen h w) (ops ++ [Draw s; Frame])))
-               (show o h w s) = true.
+               (show o (fst (size_after h w ops)) (snd (size_after h w ops)) s) = true.
 Proof. exact history_final. Qed.
 
 (* the first frame of a fresh renderer (either value of `clear`) on a blank terminal *)
@@ -140,7 +144,7 @@ Check C01_forced : forall o h w s scr,
 
 (* non-vacuity: a history with a wide character, a cell behind it, an image, a cell under the
    image, a glyph, a blank run longer than 4 (erased) and one in an underlining face (face 4, printed
-   as spaces), Clear (also between Draw and Frame), Renew and SkipFrame is in the domain, and the
+   as spaces), Clear (also between Draw and Frame), Renew, SkipFrame and a Resize to a garbage screen is in the domain, and the
    renderer issues commands for it (wide = U+4E16, width 2; image 1 is 2x3 cells) *)
 Definition ex_oracle : oracle :=
   mkoracle (fun ch => if N.eqb ch 19990%N then 2 else 1)
@@ -156,11 +160,12 @@ Definition ex_s3 : grid cell :=
   [[chr 4%N 32%N; chr 4%N 32%N; chr 4%N 32%N; chr 4%N 32%N; chr 4%N 32%N; chr 4%N 32%N; cell_default];
    [cell_default; cell_default; cell_default; cell_default; cell_default; cell_default; cell_default]].
 Definition ex_ops : list op :=
-  [Draw ex_s1; Frame; Draw ex_s2; Frame; Clear; Draw ex_s1; SkipFrame; Frame; Draw ex_s1; Frame; Renew; Draw ex_s2; Frame; Draw ex_s3; Clear; Frame].
+  [Draw ex_s1; Frame; Draw ex_s2; Frame; Clear; Draw ex_s1; SkipFrame; Frame; Draw ex_s1; Frame; Renew; Draw ex_s2; Frame; Draw ex_s3; Clear; Frame;
+   Resize 1 2 [[(WR, 3%N); (Orphan, 1%N)]]; Draw [[chr 1%N 19990%N; chr 0%N 97%N]]; Frame].
 
 Example C01_history_nonvacuous :
   oracle_ok ex_oracle /\ good_ops ex_oracle 2 7 ex_ops
-  /\ length (concat (rrun ex_oracle (rnew 2 7 false) ex_ops)) = 95
+  /\ length (concat (rrun ex_oracle (rnew 2 7 false) ex_ops)) = 98
   /\ existsb (fun c => match c with CEraseChars 5 => true | _ => false end)
              (concat (rrun ex_oracle (rnew 2 7 false) ex_ops)) = true.
 Proof.
@@ -168,7 +173,6 @@ Proof.
   { split; [reflexivity|]. split; [reflexivity|]. intros f H. unfold ex_oracle in *. cbn [erasable ferase fspace] in *.
     destruct (N.eqb f 4%N); [discriminate|reflexivity]. }
   split; [|split; vm_compute; reflexivity].
-  intros g Hin. unfold ex_ops in Hin. simpl in Hin.
-  repeat (destruct Hin as [Hin|Hin]; [inversion Hin; subst; split; vm_compute; reflexivity|]).
-  contradiction.
+  unfold ex_ops. cbn [good_ops]. repeat split; try (vm_compute; reflexivity).
+  intros row [<-|[]]. reflexivity.
 Qed.
